@@ -52,7 +52,7 @@ type Req struct {
 	Asc    bool  `json:"asc,omitempty"`
 	Offset int   `json:"offset,omitempty"`
 	Size   int   `json:"size,omitempty"`
-	Quote  []int `json:"quote,omitempty"` // per name: 0 canonical (bare or strconv.Quote), 1 "..", 2 '..', 3 `..`
+	Quote  []int `json:"quote,omitempty"` // per name: 0 canonical (bare or strconv.Quote), 1 "..", 2 '..', 3 `..`, 4 ".." with a raw '*'
 	Sep    int   `json:"sep,omitempty"`
 	Upper  bool  `json:"upper,omitempty"`
 }
@@ -83,6 +83,21 @@ func genCase(t *rapid.T) Case {
 			nk = rapid.IntRange(2, 7).Draw(t, "nk")
 		}
 		root := genObject(t, nk, 0)
+		if rapid.IntRange(0, 39).Draw(t, "bigval") == 39 {
+			// a value that outgrows the decoder's start-up node pool (128 nodes) or the
+			// buffers left behind by the previous document
+			big := node{kind: kArr}
+			if rapid.Bool().Draw(t, "bigstr") {
+				big = node{kind: kStr, s: strings.Repeat("x\"y", rapid.IntRange(700, 30000).Draw(t, "bigstrlen"))}
+			} else {
+				for n := rapid.IntRange(130, 400).Draw(t, "bigarrlen"); n > 0; n-- {
+					big.kids = append(big.kids, node{kind: kNum, s: strconv.Itoa(n)})
+				}
+			}
+			at := rapid.IntRange(0, len(root.keys)).Draw(t, "bigat")
+			root.keys = slices.Insert(root.keys, at, "big")
+			root.kids = slices.Insert(root.kids, at, big)
+		}
 		text := serialise(t, root)
 		v, err := parseJSON([]byte(text))
 		if err != nil || !equalTree(root, v) {
@@ -164,7 +179,7 @@ func genReq(t *rapid.T, c *Case, keysOf [][]string) Req {
 		r.Offset = rapid.IntRange(0, 2).Draw(t, "offset") / 2
 		r.Size = rapid.IntRange(1, len(c.Docs)+1).Draw(t, "size")
 		for range r.Fields {
-			r.Quote = append(r.Quote, rapid.IntRange(0, 3).Draw(t, "quote"))
+			r.Quote = append(r.Quote, rapid.IntRange(0, 4).Draw(t, "quote"))
 		}
 		r.Sep = rapid.IntRange(0, 3).Draw(t, "sep")
 		r.Upper = rapid.IntRange(0, 7).Draw(t, "upper") == 7
@@ -232,6 +247,8 @@ func renderName(s string, q int) string {
 	b.WriteRune(quote)
 	for _, r := range s {
 		switch {
+		case r == '*' && q == 4: // an unescaped '*' inside quotes is a plain '*' in a field list
+			b.WriteRune(r)
 		case r == quote || r == '\\' || r == '*':
 			b.WriteByte('\\')
 			b.WriteRune(r)
@@ -393,6 +410,9 @@ func (x *run) checkDoc(where string, st *stored, out []byte, r *Req, filtered bo
 		if keptContainer || keptEscape {
 			x.res.NonTrivial = true
 		}
+	}
+	if _, ok := st.val.obj["big"]; ok {
+		x.label("doc:big-value")
 	}
 	if len(st.val.keys) > 16 {
 		x.label("doc:keys>16")
@@ -643,6 +663,9 @@ func runCase(c Case) (evid.Result, error) {
 			for i, f := range r.Fields {
 				if !bareOK(f) {
 					x.label(fmt.Sprintf("pipe:quoted-name/style%d", r.Quote[i]))
+				}
+				if strings.Contains(f, "*") {
+					x.label(fmt.Sprintf("pipe:star-in-name/style%d", r.Quote[i]))
 				}
 			}
 		}
